@@ -152,6 +152,25 @@ pub struct PackageInfo {
     pub extra_info: Option<ExtraInfo>,
 }
 
+impl PackageInfo {
+    /// Column and width of the version range in UTF-16 code units, the unit LSP positions are
+    /// counted in. `column` and the offsets are in bytes, which is a different number whenever a
+    /// non-ASCII character precedes the version on its line. Returns `None` if the offsets do
+    /// not fit `content`.
+    pub fn utf16_span(&self, content: &str) -> Option<(u32, u32)> {
+        let line_start = self.start_offset.checked_sub(self.column)?;
+        let before = content.get(line_start..self.start_offset)?;
+        let text = content.get(self.start_offset..self.end_offset)?;
+        if before.contains('\n') {
+            return None;
+        }
+        Some((
+            before.encode_utf16().count() as u32,
+            text.encode_utf16().count() as u32,
+        ))
+    }
+}
+
 #[cfg(test)]
 mod tests {
     use super::*;
